@@ -24,7 +24,8 @@
 (*              (SendError = push to the connection, then Stop); else the  *)
 (*              state moves on and the HANDLER RUNS INSIDE recvLoop: its   *)
 (*              pushes are rendezvous with the caller unless buffered      *)
-(*   readLoop, sendLoop, stateLoop   exit on their stop conditions         *)
+(*   sendLoop   exits on stopChan or after recvLoop; readLoop, stateLoop    *)
+(*              are alive until their exit condition (not interleaved)     *)
 (*   closer     closes DoneChan after recvLoop AND sendLoop have exited    *)
 (*   cleanup    on DoneChan closes the result channels (if the client has  *)
 (*              one); watcher: releases a held busy lock on DoneChan       *)
@@ -113,7 +114,7 @@ CaseSpace == UNION {{[a |-> i, s |-> s] : s \in Scripts(Table.apis[i])} : i \in 
 --------------------------------------------------------------------------
 VARIABLES c,                 \* the case
           cpc, ck, rv,       \* call 1: pc, stage, result ("", "ok", "err")
-          c2,                \* call 2 (after Close returned): "idle", "lock", "send", "ret"
+          c2,                \* call 2 (after Close returned): "idle", "send" (mutex taken), "ret"
           mtx,               \* busy mutex: 0 free, 1 call 1, 2 call 2, 3 kept for the watcher
           ps, ag, sent,      \* protocol stage, agency ("cli" / "srv"), highest stage whose request went out
           pi, pk, eof, last, \* peer: next step, stage, connection closed / broken by the peer, last reply written
@@ -144,12 +145,19 @@ RepIdx(k) == 1..Len(St(k).replies)
 Repaired == Design = "repaired"
 StageDone(k) == Repaired \/ St(k).done
 Closed == SetOf(A.closed)
-GNames == {"recv", "send", "read", "state", "closer", "cleanup", "watcher"}
+GNames == {"recv", "send", "closer", "cleanup", "watcher"}
 AllChans == UNION {SetOf(St(k).wait) : k \in 1..N}
             \cup UNION {UNION {{Rep(k, j).push[i].ch : i \in 1..Len(Rep(k, j).push)} : j \in RepIdx(k)} : k \in 1..N}
 
 \* one of the shutdown signals enqueueMessage looks at is set
 Down == stopped \/ done \/ mux = "down" \/ ~g["recv"] \/ ~g["send"]
+
+\* readLoop exits on stopChan / muxerDoneChan / sendDoneChan, stateLoop on stopChan / DoneChan.  Whether they are still
+\* running decides nothing else: whenever readLoop may exit nothing is delivered any more (sendLoop only exits after
+\* stopChan or after recvLoop, which only exits after stopChan or muxerDoneChan), and whenever stateLoop may exit recvLoop
+\* takes no message any more.  So their exits are not interleaved as actions; they are alive exactly until their condition.
+ReadAlive == ~(stopped \/ mux = "down" \/ ~g["send"])
+StateAlive == ~(stopped \/ done)
 
 Init ==
     /\ c \in CaseSpace
@@ -217,7 +225,7 @@ C1Rendezvous ==
     /\ LET p == Rep(hk, hj).push[hi] IN
         /\ ~p.buf /\ p.ch \in SetOf(St(ck).wait)
         /\ hi' = hi + 1
-        /\ React(Rep(hk, hj).eff)
+        /\ React(p.eff)
     /\ UNCHANGED <<c, protoV, peerV, inbox, bad, hk, hj, buf, stopped, mux, done, cleaned, connV, userV>>
 
 C1Buffered ==
@@ -250,7 +258,7 @@ Permitted(k, name) == {j \in RepIdx(k) : Rep(k, j).name = name}
 
 \* recvLoop has the ready token (server agency) and takes the next message
 RLTake ==
-    /\ g["recv"] /\ g["state"] /\ hk = 0 /\ ~stopped /\ ag = "srv" /\ inbox # <<>>
+    /\ g["recv"] /\ hk = 0 /\ ~stopped /\ ag = "srv" /\ inbox # <<>>
     /\ inbox' = Tail(inbox)
     /\ LET m == Head(inbox) js == Permitted(ps, m) IN
        IF js = {}
@@ -270,7 +278,7 @@ RLTake ==
 HPushBuf ==
     /\ hk # 0 /\ hi <= Len(Rep(hk, hj).push)
     /\ Rep(hk, hj).push[hi].buf
-    /\ buf' = [buf EXCEPT ![Rep(hk, hj).push[hi].ch] = Rep(hk, hj).eff]
+    /\ buf' = [buf EXCEPT ![Rep(hk, hj).push[hi].ch] = Rep(hk, hj).push[hi].eff]
     /\ hi' = hi + 1
     /\ UNCHANGED <<c, callV, mtx, g, protoV, peerV, inbox, bad, hk, hj, stopped, mux, done, cleaned, connV, userV>>
 
@@ -289,7 +297,7 @@ HReturn ==
 
 \* readLoop: malformed bytes are a decode error whoever has agency
 RDError ==
-    /\ bad /\ g["read"] /\ ~stopped
+    /\ bad /\ ReadAlive
     /\ bad' = FALSE /\ RaiseError /\ ConnRest
     /\ UNCHANGED <<c, callV, mtx, g, protoV, peerV, inbox, handV, buf, mux, done, cleaned, userV>>
 
@@ -299,15 +307,13 @@ EngineFrame == UNCHANGED <<c, callV, protoV, peerV, inbox, bad, handV, buf, stop
 \* recvLoop leaves its loop only between two messages: never while its handler runs
 RLExit == g["recv"] /\ hk = 0 /\ (stopped \/ mux = "down" \/ ~g["send"]) /\ Exit("recv") /\ UNCHANGED <<mtx, done, cleaned>> /\ EngineFrame
 SLExit == g["send"] /\ (stopped \/ ~g["recv"]) /\ Exit("send") /\ UNCHANGED <<mtx, done, cleaned>> /\ EngineFrame
-RDExit == g["read"] /\ (stopped \/ mux = "down" \/ ~g["send"]) /\ Exit("read") /\ UNCHANGED <<mtx, done, cleaned>> /\ EngineFrame
-STExit == g["state"] /\ (stopped \/ done) /\ Exit("state") /\ UNCHANGED <<mtx, done, cleaned>> /\ EngineFrame
 Closer == g["closer"] /\ ~g["recv"] /\ ~g["send"] /\ Exit("closer") /\ done' = TRUE /\ UNCHANGED <<mtx, cleaned>> /\ EngineFrame
 Cleanup == g["cleanup"] /\ done /\ Exit("cleanup") /\ cleaned' = TRUE /\ UNCHANGED <<mtx, done>> /\ EngineFrame
 Watcher == g["watcher"] /\ (done \/ mtx # 3) /\ Exit("watcher") /\ mtx' = (IF mtx = 3 THEN 0 ELSE mtx)
            /\ UNCHANGED <<done, cleaned>> /\ EngineFrame
 
 RecvLoop == RLTake \/ HPushBuf \/ HPushDone \/ HReturn \/ RLExit
-Engine == RecvLoop \/ RDError \/ SLExit \/ RDExit \/ STExit \/ Closer \/ Cleanup \/ Watcher
+Engine == RecvLoop \/ RDError \/ SLExit \/ Closer \/ Cleanup \/ Watcher
 
 --------------------------------------------------------------------------
 (* the connection *)
@@ -351,7 +357,7 @@ Library == Caller \/ Engine \/ Connection
 
 S == c.s
 \* what the peer writes reaches the engine only while the muxer and readLoop are up
-Delivering == mux = "up" /\ g["read"] /\ ~stopped
+Delivering == ReadAlive
 \* the request of stage k (if it has one) is on the wire
 Asked(k) == k <= N /\ (St(k).req = "" \/ sent >= k)
 
@@ -396,8 +402,7 @@ UserCloseRet ==
 \* one more call of the same API on the closed connection
 Call2 ==
     /\ uc = "ret"
-    /\ \/ c2 = "idle" /\ c2' = "lock" /\ UNCHANGED mtx
-       \/ c2 = "lock" /\ (IF A.mutex THEN mtx = 0 /\ mtx' = 2 ELSE UNCHANGED mtx) /\ c2' = "send"
+    /\ \/ c2 = "idle" /\ (IF A.mutex THEN mtx = 0 /\ mtx' = 2 ELSE UNCHANGED mtx) /\ c2' = "send"
        \/ c2 = "send" /\ Down /\ c2' = "ret" /\ mtx' = (IF mtx = 2 THEN 0 ELSE mtx)
     /\ UNCHANGED <<uc, closeSig, drain>> /\ UserFrame
 
@@ -408,7 +413,7 @@ Next == Library \/ Peer \/ User
 Spec == Init /\ [][Next]_vars
         /\ WF_vars(Caller) /\ WF_vars(Peer) /\ WF_vars(User)
         /\ WF_vars(RecvLoop)                        \* recvLoop and the handler inside it
-        /\ WF_vars(SLExit) /\ WF_vars(RDError \/ RDExit) /\ WF_vars(STExit)
+        /\ WF_vars(SLExit) /\ WF_vars(RDError)
         /\ WF_vars(Closer) /\ WF_vars(Cleanup) /\ WF_vars(Watcher)
         /\ WF_vars(MuxEof) /\ WF_vars(FwdP) /\ WF_vars(FwdM) /\ WF_vars(Shutdown)
 
@@ -417,7 +422,7 @@ Spec == Init /\ [][Next]_vars
 
 TypeOK ==
     /\ cpc \in {"lock", "send", "sendbg", "wait", "ret"} /\ ck \in 1..N /\ rv \in {"", "ok", "err"}
-    /\ c2 \in {"idle", "lock", "send", "ret"} /\ mtx \in 0..3
+    /\ c2 \in {"idle", "send", "ret"} /\ mtx \in 0..3
     /\ ps \in 0..N /\ ag \in {"cli", "srv"} /\ sent \in 0..N
     /\ pi \in 1..(Len(S) + 1) /\ pk \in 1..(N + 1)
     /\ hk \in 0..N /\ (hk # 0 => hj \in RepIdx(hk))
@@ -437,7 +442,7 @@ ConnEnded == mux = "down"
 CallReturned == cpc = "ret"
 CloseCalled == uc # "no"
 CloseReturned == uc = "ret"
-Alive == {n \in GNames : g[n]} \cup (IF fP # "exit" THEN {"fwdProto"} ELSE {}) \cup (IF fM # "exit" THEN {"fwdMuxer"} ELSE {})
+Alive == {n \in GNames : g[n]} \cup (IF ReadAlive THEN {"read"} ELSE {}) \cup (IF StateAlive THEN {"state"} ELSE {}) \cup (IF fP # "exit" THEN {"fwdProto"} ELSE {}) \cup (IF fM # "exit" THEN {"fwdMuxer"} ELSE {})
                \cup (IF sh # "exit" THEN {"shutdown"} ELSE {})
 NoGoroutines == Alive = {}
 
@@ -446,7 +451,7 @@ Terminal == ~ENABLED Next
 \* liveness, as the property states it
 CallReturns == ConnEnded ~> CallReturned
 CloseCompletes == CloseCalled ~> (CloseReturned /\ errClosed /\ NoGoroutines)
-SecondCallReturns == (c2 # "idle") ~> (c2 = "ret")
+SecondCallReturns == CloseReturned ~> (c2 = "ret")
 \* the user always gets to close: every behaviour plays the whole script and closes
 ScriptPlayed == <>(PeerDone /\ CloseCalled)
 
